@@ -24,9 +24,10 @@ case "$CMD" in
   sync) sync_sim ;;
   apply)
     git -C "$BASE/repo" checkout -q -- . ; git -C "$BASE/repo" clean -fdq -- lib command bin e2e 2>/dev/null
+    git -C "$BASE/repo" checkout -q --detach "$(git -C /repo rev-parse HEAD)"
     git -C "$BASE/repo" apply "$1" || { echo "patch does not apply" >&2; exit 2; }
     ;;
-  reset) git -C "$BASE/repo" checkout -q -- . ; git -C "$BASE/repo" clean -fdq -- lib command bin e2e 2>/dev/null ;;
+  reset) git -C "$BASE/repo" checkout -q --detach "$(git -C /repo rev-parse HEAD)" 2>/dev/null; git -C "$BASE/repo" checkout -q -- . ; git -C "$BASE/repo" clean -fdq -- lib command bin e2e 2>/dev/null ;;
   check)
     ID="$1"; shift
     cd "$BASE/sim" || exit 2
